@@ -140,6 +140,7 @@ func propJanitor(c *Case) {
 			case 4:
 				applyTicks()
 				d.expireAll()
+				d.compareAll() // settles which instant already expired entries carry now
 				c.Class("expireall")
 			case 0:
 				k := baseKeys[c.Pick("key", len(baseKeys))]
